@@ -57,9 +57,13 @@ class _TornFile:
         kind = self._inj.hit(self._label + ".write")
         if kind == "raise":
             raise InjectedFault(f"injected at {self._label}.write")
-        if kind == "torn":
+        if kind in ("torn", "tornkill"):
             self._f.write(data[: len(data) // 2])
             self._f.flush()
+            if kind == "tornkill":
+                import os
+
+                os._exit(137)
             raise InjectedFault(f"injected torn write at {self._label}.write")
         return self._f.write(data)
 
@@ -97,6 +101,11 @@ class Injector:
             kind = self.plan.get(str(idx))
         if kind:
             self.fired.append((idx, label, kind))
+            if kind == "kill":
+                # crash of the process at this point: no exception handler, no finaliser runs
+                import os
+
+                os._exit(137)
         return kind
 
     def user_point(self, label="user-code"):
